@@ -87,7 +87,7 @@ Proof.
   assert (Eeq : c * sumf v = wdot (flat_w q S (ENode ds)) (flat (ENode ds)) (flat (ENode ds))).
   { pose proof Ein as E'. unfold S in E'. cbn [sp_inner is2 negb] in E'. rewrite Ec2 in E'.
     cbn [bind ps_inner_comb] in E'. injection E' as E'. exact E'. }
-  unfold S at 1. cbn [sp_dist esub]. fold ds. rewrite Ec1. cbn [bind]. unfold ps_dist_comb_const.
+  unfold S at 1. cbn [sp_dist esub is_nil andb]. fold ds. rewrite Ec1. cbn [bind]. unfold ps_dist_comb_const.
   rewrite lpnorm_fin_ok. cbn [bind lpnorm_v]. rootR. f_equal.
   rewrite dot_map_sqrt by assumption. rewrite <- Eeq.
   rewrite <- Rroot_mult by (try lia; try lra; apply sumf_nonneg; assumption).
